@@ -125,7 +125,7 @@ def check_mset(c, flat, to_bag, sm, k, p, make):
     lab2 = mset.categorize(flat, catarr[keep])
     exp2 = [(r // 2 if r % 2 == 0 else -1) for r in sm["ranks"]]
     c.check("mset.categorize", [int(x) for x in lab2] == exp2, [int(x) for x in lab2], exp2, "absent-category")
-    assert len(flat) == n
+    c.check("retained-steps", len(flat) == n, int(len(flat)), n)
 
 
 def check_allele_trace(c, trace, sm, thetas, k_rel, n_chain, prefix=""):
@@ -164,8 +164,7 @@ def check_allele_trace(c, trace, sm, thetas, k_rel, n_chain, prefix=""):
     check_mset(c, flat, bag_of_alleles, sm, K, P, lambda g: list(g))
 
 
-def run_state(st, mode):
-    c = Cmp(st, mode)
+def run_state(st, mode, c):
     kind, ps, K, C, S, b = st["kind"], st["ps"], st["k"], st["c"], st["s"], st["b"]
     thetas = st["thetas"]
     sm = st["sm"]
@@ -284,15 +283,15 @@ def run(task):
     if op == "states":
         out = {"n": 0, "checks": 0, "bad": [], "errors": [], "features": {}, "nontrivial": 0}
         for st in task["states"]:
+            c = Cmp(st, task.get("mode", "jit"))
             try:
                 with np.errstate(all="ignore"):
-                    c = run_state(st, task.get("mode", "jit"))
+                    run_state(st, task.get("mode", "jit"), c)
             except Exception as e:  # an exception inside a summary method is a finding, not a crash
                 import traceback
 
-                out["errors"].append({"state": slim(st), "error": "%s: %s" % (type(e).__name__, e),
+                out["errors"].append({"state": st, "error": "%s: %s" % (type(e).__name__, e),
                                       "tb": traceback.format_exc()[-1200:]})
-                continue
             out["n"] += 1
             out["checks"] += c.n
             fs = state_features(st)
@@ -302,7 +301,7 @@ def run(task):
                 out["nontrivial"] += 1
             for bd in c.bad:
                 if len(out["bad"]) < 400:
-                    bd["state"] = slim(st)
+                    bd["state"] = st            # complete model state (with the model's summary): replayable
                     out["bad"].append(bd)
                 else:
                     out["bad_overflow"] = out.get("bad_overflow", 0) + 1
